@@ -226,6 +226,10 @@ class Chip(object):
         self.diag = [0] * 16
         self.arrivals = []                 # (endpoint ip, parsed request)
         self.busy_until = None             # transient-busy window end
+        # where this chip's SC&MP put the per-core blocks and the router copy
+        # (allocated at boot: need not be the same on every chip)
+        self.vcpu_base = VCPU_BASE
+        self.rtr_copy = RTR_COPY
         self.synced = False                # sv/vcpu/diag materialised
         self.p2p_synced = False
         self.rtr_synced = False
@@ -246,8 +250,8 @@ class Chip(object):
         self.sv_write("sdram_base", self.sdram.base)
         self.sv_write("sysram_base", self.sysram.base)
         self.sv_write("sdram_sys", m.sdram_sys)
-        self.sv_write("vcpu_base", VCPU_BASE)
-        self.sv_write("rtr_copy", RTR_COPY)
+        self.sv_write("vcpu_base", self.vcpu_base)
+        self.sv_write("rtr_copy", self.rtr_copy)
         self.sv_write("alloc_tag", ALLOC_TAG)
         self.sv_write("iobuf_size", m.iobuf_size)
         self.sv_write("p2p_root", (m.root[0] << 8) | m.root[1])
@@ -260,7 +264,7 @@ class Chip(object):
         if not self.synced:
             return
         c = self.cores[p]
-        base = VCPU_BASE + VCPU_SIZE * p
+        base = self.vcpu_base + VCPU_SIZE * p
         vf = self.m.vcpu_fields
         blk = bytearray(VCPU_SIZE)
         blk[vf["phys_cpu"].offset] = (p * 5 + 1) % 18
@@ -302,7 +306,7 @@ class Chip(object):
         else:
             rec = (p16(i) + p16((e.app & 0xff) | ((e.core & 0xf) << 8)) +
                    p32(e.route) + p32(e.key) + p32(e.mask))
-        self.mem.write(RTR_COPY + 16 * i, rec)
+        self.mem.write(self.rtr_copy + 16 * i, rec)
 
     def materialise(self, addr=None, n=0):
         """Bring the memory-mapped views of the model state into the byte
@@ -316,8 +320,8 @@ class Chip(object):
         if addr is None:
             return
         end = addr + n
-        if not self.rtr_synced and addr < RTR_COPY + 16 * N_RTR and \
-                end > RTR_COPY:
+        if not self.rtr_synced and addr < self.rtr_copy + 16 * N_RTR and \
+                end > self.rtr_copy:
             self.rtr_synced = True
             for i in range(N_RTR):
                 self.sync_router_entry(i)
@@ -327,7 +331,7 @@ class Chip(object):
             self.sync_p2p()
 
     def sync_all(self):
-        self.materialise(RTR_COPY, 1)
+        self.materialise(self.rtr_copy, 1)
         self.materialise(P2P_TABLE, 1)
 
     def sync_p2p(self):
@@ -466,6 +470,13 @@ class SimMachine(object):
 
     def live_chips(self):
         return [c for c in self.chips.values() if not c.dead]
+
+    def vary_layout(self):
+        """Give every chip its own addresses for the per-core blocks and the
+        router copy (call before anything has been read)."""
+        for (x, y), ch in self.chips.items():
+            ch.vcpu_base = VCPU_BASE + VCPU_SIZE * ((x * 3 + y * 7) % 11)
+            ch.rtr_copy = RTR_COPY + 0x4000 * ((x * 5 + y * 3 + 1) % 4)
 
     def finish(self, materialise=False):
         """Call after the topology/state has been configured."""
